@@ -2,7 +2,7 @@
    delivered ids.  Mirrors the proof of the end clause in Proofs/LtsOracleProofs.v. *)
 From Coq Require Import ZArith List Bool Arith Lia.
 From V Require Import Val StreamLts Cache LtsWire LtsOracle LtsOracleProofs C04Oracle C04RawPkt C04RawPktProofs.
-From V Require LtsBacklogProofs LtsFanoutProofs.
+From V Require LtsBacklogProofs LtsFanoutProofs LtsJoinProofs LtsOracleC02Proofs.
 Import ListNotations.
 Local Open Scope nat_scope.
 Local Arguments s_cs {cache_t}.
@@ -124,10 +124,159 @@ Proof.
   rewrite Esel, map_app in Hg. apply gapsb_ok_prefix in Hg. exact Hg.
 Qed.
 
+(* ---- the seam between the join replay and the live part ---- *)
+Lemma sel_first : forall keep w prev y rest,
+  LtsBacklogProofs.aligned prev keep w -> LtsBacklogProofs.select keep w = y :: rest ->
+  exists w1 w2, w = w1 ++ y :: w2 /\
+    (prev = false \/ w1 <> [] -> p_key y = true) /\
+    (w1 <> [] -> prev = true -> p_key (hd y w1) = true).
+Proof.
+  induction keep as [|b keep IH]; intros w prev y rest Hal Hs.
+  - destruct w; discriminate.
+  - destruct w as [|p w]; [discriminate|].
+    cbn [LtsBacklogProofs.aligned] in Hal. destruct Hal as [Hk Hal].
+    cbn [LtsBacklogProofs.select] in Hs. destruct b.
+    + injection Hs as -> _. exists [], w. split; [reflexivity|]. split.
+      * intros [E|E]; [|congruence]. apply Hk. rewrite E. discriminate.
+      * congruence.
+    + destruct (IH w false y rest Hal Hs) as (w1 & w2 & -> & H1 & H2).
+      exists (p :: w1), w2. split; [reflexivity|]. split.
+      * intros _. apply H1. now left.
+      * intros _ E. cbn [hd]. apply Hk. rewrite E. discriminate.
+Qed.
+
+Lemma app_eq_cases : forall A (l1 r1 l2 r2 : list A), l1 ++ r1 = l2 ++ r2 ->
+  (exists t, l2 = l1 ++ t) \/ (exists x t, l1 = l2 ++ x :: t /\ r2 = x :: t ++ r1).
+Proof.
+  induction l1 as [|a l1 IH]; intros r1 l2 r2 H.
+  - left. exists l2. reflexivity.
+  - destruct l2 as [|b l2].
+    + right. exists a, l1. split; [reflexivity|]. cbn in H. now rewrite <- H.
+    + cbn in H. injection H as -> H. destruct (IH _ _ _ H) as [(t & ->)|(x & t & -> & ->)].
+      * left. exists t. reflexivity.
+      * right. exists x, t. split; reflexivity.
+Qed.
+
+Lemma prefixZ_map_app : forall (a t : list pkt), prefixZ (map p_id a) (map p_id (a ++ t)) = true.
+Proof. intros. rewrite map_app. apply LtsOracleC02Proofs.prefixZ_complete. Qed.
+
+Lemma window_segment_len : forall (sent : list pkt) r u rest,
+  LtsBacklogProofs.window sent (Some r) u <> [] ->
+  exists B, sent ++ rest = firstn r sent ++ LtsBacklogProofs.window sent (Some r) u ++ B /\
+            length (firstn r sent) = r.
+Proof.
+  intros sent r u rest Hne. cbn [LtsBacklogProofs.window] in *.
+  set (X := match u with Some b => firstn b sent | None => sent end) in *.
+  assert (HX : exists X', sent = X ++ X').
+  { unfold X. destruct u as [b|]; [exists (skipn b sent); symmetry; apply firstn_skipn|].
+    exists []. rewrite app_nil_r. reflexivity. }
+  destruct HX as [X' HX].
+  assert (Hr : r < length X).
+  { destruct (Nat.lt_ge_cases r (length X)) as [?|Hge]; [assumption|].
+    elim Hne. now apply skipn_all2. }
+  assert (Hf : firstn r sent = firstn r X).
+  { rewrite HX at 1. rewrite firstn_app. replace (r - length X) with 0 by lia.
+    cbn [firstn]. apply app_nil_r. }
+  exists (X' ++ rest). split.
+  - rewrite Hf. rewrite HX at 1. rewrite <- (firstn_skipn r X) at 1. rewrite <- !app_assoc. reflexivity.
+  - rewrite Hf. apply firstn_length_le. lia.
+Qed.
+
+Lemma nth_at : forall (A : list pkt) h R, nth (length A) (map p_id (A ++ h :: R)) 0%Z = p_id h.
+Proof. induction A as [|a A IH]; intros h R; [reflexivity|]. cbn [app map length nth]. apply IH. Qed.
+
+Lemma live_seam_ok : forall c, l_var c = fixed -> NoDup (map p_id (l_pkts c)) ->
+  forallb (fun t => negb (is_close t)) (l_sched c) = true -> forall i,
+  seam_ok (l_pkts c) (l_gop c) (map p_id (l_pkts c)) (map p_id (c_out (s_cs (lrun c) i))) = true.
+Proof.
+  intros c Hv Hnd Hnc i. pose proof (lrun_fixed c Hv) as Hs.
+  assert (HF : Forall (fun t => t <> TClose) (l_sched c)).
+  { apply Forall_forall. intros t Ht E. rewrite forallb_forall in Hnc. specialize (Hnc t Ht).
+    rewrite E in Hnc. discriminate. }
+  pose proof (LtsJoinProofs.join_contiguous_rcache (l_maxq c) (l_gop c) (l_n c) (pan c) (l_pkts c)
+                (stp c) (l_sched c) HF) as HJ.
+  pose proof (LtsBacklogProofs.inv_reachable (l_maxq c) rcache (rc_empty (l_gop c)) rc_add rc_snap
+                (l_n c) (pan c) 0 (l_pkts c) (l_sched c) (stp c)) as HI.
+  pose proof (LtsFanoutProofs.delivered_prefix_of_pushed (l_maxq c) rcache (rc_empty (l_gop c)) rc_add
+                rc_snap (l_n c) (pan c) (l_pkts c) (stp c) (l_sched c) i) as F1.
+  pose proof (LtsFanoutProofs.sent_prefix_of_published (l_maxq c) rcache (rc_empty (l_gop c)) rc_add
+                rc_snap (l_n c) (pan c) (l_pkts c) (stp c) (l_sched c)) as F5.
+  cbv zeta in HJ, F1, F5. rewrite <- Hs in HJ, HI, F1, F5.
+  set (k := s_cs (lrun c) i) in *.
+  destruct HI as [_ _ HC]. destruct (HC i) as (H0 & _). fold k in H0.
+  pose proof (LtsBacklogProofs.ci_align _ _ _ H0) as Hal.
+  pose proof (LtsBacklogProofs.ci_pushed _ _ _ H0) as Hpu.
+  destruct F1 as [rest F1]. destruct F5 as [rest' F5].
+  unfold seam_ok. apply existsb_exists.
+  destruct (c_regat k) as [r|] eqn:Er.
+  - destruct (HJ i r Er) as (Hr & Hpre & _). fold k in Hpre.
+    assert (E1 : firstn r (l_pkts c) = firstn r (s_sent (lrun c))).
+    { rewrite F5, firstn_app. replace (r - length (s_sent (lrun c))) with 0 by lia.
+      cbn [firstn]. apply app_nil_r. }
+    exists r. split; [apply in_seq; rewrite F5, app_length; lia|]. cbv zeta.
+    rewrite E1, <- Hpre.
+    set (w := LtsBacklogProofs.window (s_sent (lrun c)) (Some r) (c_unregat k)) in *.
+    rewrite Hpu in F1. rewrite !map_length.
+    destruct (app_eq_cases _ _ _ _ _ (eq_sym F1)) as [(t & Et)|(y & t & Eo & Esel)].
+    + (* only (part of) the replay has been handed over *)
+      assert (Hle : length (c_out k) <= length (c_prefill k)) by (rewrite Et, app_length; lia).
+      apply Nat.leb_le in Hle. rewrite Hle. rewrite Et. apply prefixZ_map_app.
+    + assert (Hgt : (length (c_out k) <=? length (c_prefill k)) = false).
+      { apply Nat.leb_gt. rewrite Eo, app_length. cbn [length]. lia. }
+      rewrite Hgt. cbv zeta.
+      rewrite skipn_map, Eo, skipn_app, skipn_all, Nat.sub_diag. cbn [app skipn].
+      assert (Hwne : w <> []).
+      { intros Ew0. rewrite Ew0 in Esel. destruct (c_keep k); discriminate. }
+      destruct (window_segment_len (s_sent (lrun c)) r (c_unregat k) rest' Hwne) as (B & Eseg & HA).
+      fold w in Eseg. rewrite <- F5 in Eseg.
+      set (A := firstn r (s_sent (lrun c))) in *.
+      pose proof (gaps_sel0 (c_keep k) w (l_pkts c) A B true Eseg Hnd Hal) as Hg1.
+      pose proof (gapsb_sel0 (c_keep k) w (l_pkts c) A B true Eseg Hnd Hal) as Hg2.
+      rewrite Esel in Hg1, Hg2.
+      change (y :: t ++ rest) with ((y :: t) ++ rest) in Hg1, Hg2. rewrite map_app in Hg1, Hg2.
+      apply gaps_ok_prefix in Hg1. apply gapsb_ok_prefix in Hg2.
+      rewrite Hg1, Hg2, !andb_true_r.
+      apply andb_true_iff. split; [apply prefixZ_map_app|].
+      cbn [map first_ok].
+      destruct (r <? posZ (p_id y) (map p_id (l_pkts c))) eqn:El; [|reflexivity].
+      apply Nat.ltb_lt in El.
+      destruct (sel_first _ _ true y (t ++ rest) Hal Esel) as (w1 & w2 & Ew & Hk1 & Hk2).
+      assert (Epk : l_pkts c = (A ++ w1) ++ y :: (w2 ++ B)).
+      { rewrite Eseg, Ew, <- !app_assoc. reflexivity. }
+      assert (Hpos : posZ (p_id y) (map p_id (l_pkts c)) = length (A ++ w1)).
+      { rewrite Epk. apply pos_at. rewrite <- Epk. exact Hnd. }
+      rewrite app_length, HA in Hpos.
+      assert (Hw1 : w1 <> []) by (destruct w1; [cbn [length] in Hpos; lia|discriminate]).
+      destruct w1 as [|h w1']; [congruence|]. cbn [hd] in Hk2.
+      apply andb_true_iff. split.
+      * assert (En : nth r (map p_id (l_pkts c)) 0%Z = p_id h).
+        { rewrite Epk, <- app_assoc. cbn [app]. rewrite <- HA. apply nth_at. }
+        rewrite En, kind_of_id; [|exact Hnd|].
+        -- specialize (Hk2 Hw1 eq_refl). unfold p_key in Hk2. exact Hk2.
+        -- rewrite Epk. apply in_or_app. left. apply in_or_app. right. left. reflexivity.
+      * rewrite kind_of_id; [|exact Hnd|].
+        -- assert (Hky : p_key y = true) by (apply Hk1; right; exact Hw1). unfold p_key in Hky. exact Hky.
+        -- rewrite Epk. apply in_or_app. right. left. reflexivity.
+  - (* never registered: nothing has been handed over *)
+    exists 0. split; [apply in_seq; lia|]. cbv zeta.
+    assert (Hout : c_out k = []).
+    { apply (LtsBacklogProofs.ci_out0 _ _ _ H0).
+      destruct (c_pc k) eqn:Epc; try reflexivity; exfalso;
+        (assert (Ea : s_att _ (lrun c) i = ADone) by (apply (LtsBacklogProofs.ci_pc _ _ _ H0); rewrite Epc; discriminate));
+        (apply (LtsBacklogProofs.ci_regat _ _ _ H0); [right; exact Ea|exact Er]). }
+    rewrite Hout. reflexivity.
+Qed.
+
 Theorem C04x_model_passes : forall c : lcase,
   l_var c = fixed -> ok_C04x c (obs_of_state (l_n c) (lrun c)) = true.
 Proof.
-  intros c Hv. unfold ok_C04x. apply andb_true_iff. split; [now apply C04_model_passes|].
+  intros c Hv. unfold ok_C04x. apply andb_true_iff. split.
+  2:{ cbv zeta. destruct (nodupZ (map p_id (l_pkts c)) && forallb (fun t => negb (is_close t)) (l_sched c)) eqn:Eg;
+        [|reflexivity].
+      apply andb_true_iff in Eg. destruct Eg as [End Hnc]. apply nodupZ_NoDup in End.
+      unfold obs_of_state. cbn [o_cons]. apply forallb_map_seq. intros i Hi. unfold cobs_of. cbn [o_out].
+      now apply live_seam_ok. }
+  apply andb_true_iff. split; [now apply C04_model_passes|].
   cbv zeta. destruct (nodupZ (map p_id (l_pkts c))) eqn:End; [|reflexivity].
   apply nodupZ_NoDup in End. unfold obs_of_state. cbn [o_cons].
   apply forallb_map_seq. intros i Hi. unfold cobs_of. cbn [o_out].
